@@ -270,6 +270,6 @@ def mutants(mb):
     mb.add_text("annotated-conversion-crossed", "apischema/conversions/visitor.py", "    ) -> Optional[AnyConversion]:\n        return annotation.serialization", "    ) -> Optional[AnyConversion]:\n        return annotation.deserialization", "C05.R2", "_annotated_conversion")
     mb.add_text("ser-refetches-fields", "apischema/serialization/__init__.py", "        typed_dict = is_typed_dict(cls)\n        for field in fields:", "        typed_dict = is_typed_dict(cls)\n        fields = list(object_fields(tp, serialization=True).values())\n        for field in fields:", "C05.R3", "fields")
     mb.add_text("discriminator-key-raw", "apischema/serialization/__init__.py", "                        self.aliaser(discriminator.alias),\n", "                        discriminator.alias,\n", "C05.R3", "discriminator-key")
-    mb.add_text("discriminator-key-overwrites", "apischema/serialization/methods.py", "        if isinstance(res, dict) and self.alias not in res:\n            res[self.alias] = self.key", "        if isinstance(res, dict):\n            res[self.alias] = self.key", "C05.R3", "DiscriminatedAlternative")
+    mb.add_text("discriminator-key-overwrites", "apischema/serialization/methods.py", "        if isinstance(res, dict) and self.alias not in res:\n", "        if isinstance(res, dict):\n", "C05.R3", "DiscriminatedAlternative")
     mb.add_text("neg-typing-list", S, "    deserializer(Conversion(deque, source=list[T], target=deque[T]))  # type: ignore", "    deserializer(Conversion(deque, source=List[T], target=deque[T]))  # type: ignore", negative=True)
     mb.out[-1].new_src = mb.out[-1].new_src.replace("from typing import TypeVar\n", "from typing import List, TypeVar\n", 1)
